@@ -405,6 +405,8 @@ class Check:
         # VERIF_EVIDENCE_DIR: used only by tools/try_mutant.sh so that runs against a scratch tree do not overwrite
         # the evidence of the real tree
         evdir = os.environ.get('VERIF_EVIDENCE_DIR') or os.path.join(VERIF, 'evidence')
+        if not os.environ.get('VERIF_EVIDENCE_DIR') and os.path.realpath(REPO) != '/repo':
+            evdir = os.path.join('/tmp', 'evidence-scratch-tree')      # TRACKPY_REPO points at a scratch tree (development only)
         os.makedirs(evdir, exist_ok=True)
         with open(os.path.join(evdir, '%s.json' % self.prop), 'w') as f:
             json.dump(ev, f, indent=1, default=str)
